@@ -5,17 +5,17 @@ import json, os, re, shutil
 ROOT = os.path.dirname(os.path.dirname(os.path.abspath(__file__)))
 conf = {}
 for l in open('/tmp/confirm/summary.txt'):
-    m = re.search(r'id=(\w+) k=(\d) demo_pristine_rc=(\d+) apply_rc=(\d+) demo_patched_rc=(\d+) suite_unexpected_failures=(\w+) summary=\[(.*)\]', l)
+    m = re.search(r'id=(\w+) k=(\w+) demo_pristine_rc=(\d+) apply_rc=(\d+) demo_patched_rc=(\d+) suite_unexpected_failures=(\w+) summary=\[(.*)\]', l)
     if m:
-        conf[(m.group(1), int(m.group(2)))] = dict(demo_pristine_rc=int(m.group(3)), apply_rc=int(m.group(4)), demo_patched_rc=int(m.group(5)),
+        conf[(m.group(1), m.group(2))] = dict(demo_pristine_rc=int(m.group(3)), apply_rc=int(m.group(4)), demo_patched_rc=int(m.group(5)),
                                                    suite_unexpected_failures=m.group(6), suite_summary=m.group(7).strip())
 tries = {}
 if os.path.exists('/tmp/try/summary.txt'):
     for l in open('/tmp/try/summary.txt'):
-        m = re.match(r'(\w+) m(\d) exit=(\d+) (\d+) violations; (.*)', l)
+        m = re.match(r'(\w+) m(\w+) exit=(\d+) (\d+) violations; (.*)', l)
         if m:
             hs = re.findall(r'replays/\w+/(\w+?)-[0-9a-f]{10}\.json', m.group(5))
-            tries[(m.group(1), int(m.group(2)))] = dict(tier='quick', check_exit=int(m.group(3)), violations=int(m.group(4)), harnesses=sorted(set(hs)))
+            tries[(m.group(1), m.group(2))] = dict(tier='quick', check_exit=int(m.group(3)), violations=int(m.group(4)), harnesses=sorted(set(hs)))
 extra = {}
 if os.path.exists(f'{ROOT}/seeded/detection_notes.json'):
     extra = json.load(open(f'{ROOT}/seeded/detection_notes.json'))
